@@ -109,3 +109,16 @@ func VerifTransition(cur ConnState, ev int) (ConnState, bool) { return transitio
 func VerifNextBackoffDelay(cur time.Duration, multiplier float64, ceil time.Duration) time.Duration {
 	return nextBackoffDelay(cur, multiplier, ceil)
 }
+
+// VerifSetSystemBytes presets the System Bytes counter of a connection built by NewConnection (the
+// next allocation returns v+1), so that a simulation can start a connection close to the 2^32 wrap
+// instead of sending four billion messages. It reports false for a foreign Connection value.
+func VerifSetSystemBytes(c Connection, v uint32) bool {
+	cc, ok := c.(*connection)
+	if !ok {
+		return false
+	}
+	cc.sysGen.n.Store(v)
+
+	return true
+}
